@@ -195,10 +195,21 @@ func runCheck(cfg *config, spec *engineSpec) int {
 			}
 		}
 	} else {
-		// VERIF_RACE_ONLY=1 (with VERIF_RACE=1): run the quick batch on the -race build
-		rc.useAlt = os.Getenv("VERIF_RACE_ONLY") == "1" && rc.altWorker != nil
-		rc.search(cfg.seed, deadline, 0)
-		rc.useAlt = false
+		// VERIF_RACE_ONLY=1: run the whole quick batch on the -race build; otherwise the
+		// last fifth of the budget does (when the engine provides such a build)
+		if os.Getenv("VERIF_RACE_ONLY") == "1" && rc.altWorker != nil {
+			rc.useAlt = true
+			rc.search(cfg.seed, deadline, 0)
+			rc.useAlt = false
+		} else if rc.altWorker != nil {
+			rc.search(cfg.seed, searchStart.Add(budget*4/5), 0)
+			fmt.Printf("[%s] last fifth of the budget runs on the -race build (auxiliary crash oracle)\n", spec.name)
+			rc.useAlt = true
+			rc.search(cfg.seed+500009, deadline, 0)
+			rc.useAlt = false
+		} else {
+			rc.search(cfg.seed, deadline, 0)
+		}
 	}
 	searchS := time.Since(searchStart).Seconds()
 	fmt.Printf("[%s] %d simulated runs in %.1fs (%d non-trivial, %d distinct interleavings, %d distinct states), %d failing, %d worker deaths\n",
